@@ -1341,7 +1341,94 @@ func ruleGRDcrc(w *World, r *Report) {
 		obj  *types.Func
 	}{{"ReadFrame", rf.Obj}, {"ParseCommand", pcObj}} {
 		calls := findInstrs(rfn, callsTo(pair.obj))
+		notFalse := func(in ssa.Instruction) bool { // a return that can say "found"
+			rt, ok := in.(*ssa.Return)
+			if !ok || len(rt.Results) == 0 {
+				return false
+			}
+			c, isC := retVal(rt, len(rt.Results)-1).(*ssa.Const)
+			return !(isC && c.Value != nil && c.Value.Kind() == constant.Bool && !constant.BoolVal(c.Value))
+		}
 		if len(calls) == 0 {
+			// the candidate test moved into a helper that answers yes/no: it must say yes only after the call succeeded, and
+			// resyncAOF must accept only on its yes
+			okHelper := false
+			for _, h := range w.extractedHelpers(rfn) {
+				inner := findInstrs(h, callsTo(pair.obj))
+				res := h.Signature.Results()
+				if len(inner) == 0 || res.Len() != 1 || !isBoolType(res.At(0).Type()) {
+					continue
+				}
+				blockedH := map[edgeKey]bool{}
+				for _, c := range inner {
+					_, succ := succFailEdges(h, c.(*ssa.Call))
+					for k := range succ {
+						blockedH[k] = true
+					}
+				}
+				// `return err == nil` on the call's own error is a yes that is the call's success
+				isSuccessOf := func(v ssa.Value) bool {
+					bo, ok := v.(*ssa.BinOp)
+					if !ok || bo.Op != token.EQL || !(isNilConst(bo.X) || isNilConst(bo.Y)) {
+						return false
+					}
+					e := bo.X
+					if isNilConst(e) {
+						e = bo.Y
+					}
+					for _, c := range inner {
+						for _, ev := range errValues(c.(*ssa.Call)) {
+							if ev == e {
+								return true
+							}
+						}
+					}
+					return false
+				}
+				directYes := false
+				canSayYes := func(in ssa.Instruction) bool {
+					if !notFalse(in) {
+						return false
+					}
+					rt := in.(*ssa.Return)
+					if isSuccessOf(retVal(rt, len(rt.Results)-1)) {
+						directYes = true
+						return false
+					}
+					return true
+				}
+				yes, _ := (pathQuery{fn: h, target: canSayYes, blocked: blockedH}).find(entryPos(h))
+				if yes || (len(blockedH) == 0 && !directYes) {
+					continue // the helper can say yes without the call having succeeded
+				}
+				blockedS := map[edgeKey]bool{}
+				for _, hc := range findInstrs(rfn, func(in ssa.Instruction) bool {
+					c, ok := in.(*ssa.Call)
+					return ok && c.Call.StaticCallee() == h
+				}) {
+					for _, ref := range *hc.(*ssa.Call).Referrers() {
+						edge := 0
+						if u, ok := ref.(*ssa.UnOp); ok && u.Op == token.NOT && u.Referrers() != nil {
+							edge = 1
+							for _, r2 := range *u.Referrers() {
+								ref = r2
+							}
+						}
+						if iff, ok := ref.(*ssa.If); ok {
+							blockedS[edgeKey{iff.Block(), edge}] = true
+						}
+					}
+				}
+				if len(blockedS) == 0 {
+					continue
+				}
+				okHelper = true
+				found, wit := pathQuery{fn: rfn, target: notFalse, blocked: blockedS}.find(entryPos(rfn))
+				r.Cond(!found, "GRD-crc", "resyncAOF:accept-after-"+pair.name, w.Pos(rs.Decl.Pos()), "candidate accepted only after "+pair.name+" succeeded (inside "+shortFn(h)+")", "resyncAOF can accept a candidate offset without a successful "+pair.name, w.witness(wit)...)
+			}
+			if okHelper {
+				continue
+			}
 			r.Bad("GRD-crc", "resyncAOF:needs-"+pair.name, w.Pos(rs.Decl.Pos()), "resyncAOF no longer validates a candidate with "+pair.name+": a stray magic byte inside garbage is accepted as a frame")
 			continue
 		}
